@@ -180,8 +180,19 @@ fn eval_transform(ops: &[POp], eo: bool, xf: &Xf) -> Result<u64, Violation> {
     if out.winding != orig.winding || out.ops.len() != orig.ops.len() {
         return Err(Violation::new("transform/structure", case, format!("winding {:?} -> {:?}, {} ops -> {}", orig.winding, out.winding, orig.ops.len(), out.ops.len())));
     }
-    let tp = |x: f32, y: f32| t.transform_point(Point::new(x, y));
-    let same = |p: Point, q: Point| beq(p.x, q.x) && beq(p.y, q.y);
+    // the mapped point, and how large the terms are that add up to each coordinate: the result may
+    // differ from this evaluation order by a few ulps of those terms (bit-identity with one
+    // particular order of operations is not part of the property)
+    let tp = |x: f32, y: f32| {
+        let q = t.transform_point(Point::new(x, y));
+        let mx = (x * t.m11).abs() + (y * t.m21).abs() + t.m31.abs();
+        let my = (x * t.m12).abs() + (y * t.m22).abs() + t.m32.abs();
+        (q, mx, my)
+    };
+    let same = |p: Point, w: (Point, f32, f32)| {
+        let ok = |a: f32, b: f32, m: f32| beq(a, b) || (a - b).abs() <= 4.0 * f32::EPSILON * m;
+        ok(p.x, w.0.x, w.1) && ok(p.y, w.0.y, w.2)
+    };
     for (i, (o, src)) in out.ops.iter().zip(ops.iter()).enumerate() {
         let ok = match (*o, *src) {
             (PathOp::MoveTo(p), POp::M(x, y)) => same(p, tp(x, y)),
